@@ -50,20 +50,27 @@ func evidenceDir() string {
 	return verifDir() + "/evidence"
 }
 
+type knownFinding struct {
+	ID         string   `json:"id"`
+	Properties []string `json:"properties"`
+	Summary    string   `json:"summary"`
+}
+
+var openFindings []knownFinding
+
 func loadKnown() {
 	b, err := os.ReadFile(verifDir() + "/known_findings.json")
 	if err != nil {
 		return
 	}
 	var kf struct {
-		Open []struct {
-			ID string `json:"id"`
-		} `json:"open"`
+		Open []knownFinding `json:"open"`
 	}
 	if json.Unmarshal(b, &kf) == nil {
 		for _, o := range kf.Open {
 			sim.KnownFindings[o.ID] = true
 		}
+		openFindings = kf.Open
 	}
 }
 
